@@ -105,6 +105,7 @@ type testifyRun struct {
 	unroll  bool
 	resGen  *Gen
 	calls   int // completed matched calls (recorded by testify)
+	callLog []string // method + content fingerprints of the arguments handed to mock.Called, per matched call
 	tags    map[string]bool
 	cleaned bool
 	// ambiguous: the history reached a point where testify's Anything-matches-a-missing-argument
@@ -387,6 +388,7 @@ func (r *testifyRun) call(task, oi int, op Op, ops []Op) {
 			r.fail(&Violation{"no-return-panic-does-not-name-method", site, trig, "a panic naming " + m.Name, short(msg, 300)})
 		}
 		r.calls++
+		r.callLog = append(r.callLog, r.logEntry(m, args))
 		return
 	}
 	if panicked {
@@ -394,6 +396,7 @@ func (r *testifyRun) call(task, oi int, op Op, ops []Op) {
 		return
 	}
 	r.calls++
+	r.callLog = append(r.callLog, r.logEntry(m, args))
 	// callbacks: each configured one exactly once, with exactly the call's arguments
 	want := map[string]bool{}
 	switch e.style {
@@ -459,6 +462,26 @@ func (r *testifyRun) call(task, oi int, op Op, ops []Op) {
 	if got := fpsOf(outs); !eqStrs(got, exp) {
 		r.fail(&Violation{"results-differ", site, trig, "exactly the configured values / what the function returned: " + short(tupleOf(exp), 300), what + " returned " + short(tupleOf(got), 300)})
 	}
+}
+
+// cfpDyn fingerprints the dynamic value (an interface-typed value and the interface{} slot
+// testify stores it in must compare equal).
+func cfpDyn(v reflect.Value) string {
+	for v.IsValid() && v.Kind() == reflect.Interface {
+		if v.IsNil() {
+			return "nil"
+		}
+		v = v.Elem()
+	}
+	return CFP(v)
+}
+
+func (r *testifyRun) logEntry(m *methodInfo, a argSet) string {
+	parts := []string{m.Name}
+	for _, v := range r.calledArgs(m, a) {
+		parts = append(parts, cfpDyn(v))
+	}
+	return strings.Join(parts, " ; ")
 }
 
 func nilTrigger(a argSet) string {
@@ -608,8 +631,34 @@ func RunTestify(reg *Registration, cs *Case) (*Violation, RunStats) {
 	}
 	// testify's own record of calls equals the matched calls that completed
 	if f := r.mv.Elem().FieldByName("Mock"); f.IsValid() {
-		if n := f.FieldByName("Calls").Len(); n != r.calls {
+		calls := f.FieldByName("Calls")
+		if n := calls.Len(); n != r.calls {
 			return &Violation{"testify-call-record-count", site, "", fmt.Sprintf("%d calls recorded by testify", r.calls), fmt.Sprint(n)}, st
+		}
+		// each recorded call holds the arguments of exactly one actual call (and keeps them)
+		var got []string
+		for i := 0; i < calls.Len(); i++ {
+			c := calls.Index(i)
+			parts := []string{c.FieldByName("Method").String()}
+			args := c.FieldByName("Arguments")
+			for j := 0; j < args.Len(); j++ {
+				parts = append(parts, cfpDyn(args.Index(j)))
+			}
+			got = append(got, strings.Join(parts, " ; "))
+		}
+		want := append([]string(nil), r.callLog...)
+		if len(cs.Tasks) > 1 {
+			sort.Strings(got)
+			sort.Strings(want)
+		}
+		for i := range want {
+			if i >= len(got) || got[i] != want[i] {
+				g := "(missing)"
+				if i < len(got) {
+					g = got[i]
+				}
+				return &Violation{"recorded-call-arguments-differ", site, fmt.Sprintf("unroll=%v", r.unroll), "each recorded call holds the arguments of exactly one actual call: " + short(want[i], 300), short(g, 300)}, st
+			}
 		}
 	}
 	return nil, st
